@@ -2876,7 +2876,7 @@ pub fn check_all(out: &RunOut) -> Vec<Violation> {
             check_c15(&ix, &mut v);
             check_c07(&ix, &mut v);
         }
-        "C05" | "C06" | "C13" | "C14" | "C08" => {
+        "C05" | "C06" | "C13" | "C13X" | "C14" | "C08" => {
             check_c05(&ix, &mut v);
             check_c06(&ix, &mut v);
             check_c13(&ix, &mut v);
